@@ -397,6 +397,9 @@ class Manager:
             else:
                 names = ['*']
 
+        # flag first: a removal that fails half-way must not leave a stale cache
+        self.root._cache_needs_refresh = True
+
         for name in names:
             self._handlers[name].remove(method)
             if not self._handlers[name]:
@@ -406,8 +409,6 @@ class Manager:
                 except AttributeError:
                     # Handler was never part of self
                     pass
-
-        self.root._cache_needs_refresh = True
 
     def registerChild(self, component):
         if component._executing_thread is not None:
